@@ -46,6 +46,7 @@ pub fn gen_cfg(s: &mut Src, allow_fragment: bool) -> TreeCfg {
     if allow_fragment && s.chance(100) {
         let ctxs = all_contexts();
         cfg.ctx = Some(ctxs[s.below(ctxs.len())].clone());
+        cfg.form_ptr = s.chance(50);
     }
     cfg.scripting = !s.chance(90);
     cfg.srcdoc = s.chance(30);
